@@ -838,7 +838,17 @@ fn link_json(req: &J) -> J {
     };
     // the exported JSON is a static policy: compare its scope and condition text with the linked policy's own rendering
     match cedar_policy::Policy::from_json(Some(PolicyId::new("l")), j.clone()) {
-        Ok(q) => json!({"equal": q.to_string() == linked.to_string(), "linked": linked.to_string(), "back": q.to_string(), "json": j}),
+        Ok(q) => {
+            // the scope of the linked policy as its AST has it (the printed form goes through the EST as well, so it cannot be the only witness)
+            use cedar_policy::{ActionConstraint as AC, PrincipalConstraint as PC, ResourceConstraint as RC};
+            let scope = |p: &cedar_policy::Policy| {
+                let pc = match p.principal_constraint() { PC::Any => "any".to_string(), PC::In(u) => format!("in {u}"), PC::Eq(u) => format!("== {u}"), PC::Is(t) => format!("is {t}"), PC::IsIn(t, u) => format!("is {t} in {u}") };
+                let rc = match p.resource_constraint() { RC::Any => "any".to_string(), RC::In(u) => format!("in {u}"), RC::Eq(u) => format!("== {u}"), RC::Is(t) => format!("is {t}"), RC::IsIn(t, u) => format!("is {t} in {u}") };
+                let ac = match p.action_constraint() { AC::Any => "any".to_string(), AC::In(us) => format!("in [{}]", us.iter().map(|u| u.to_string()).collect::<Vec<_>>().join(", ")), AC::Eq(u) => format!("== {u}") };
+                format!("principal {pc} / action {ac} / resource {rc}")
+            };
+            json!({"equal": q.to_string() == linked.to_string() && scope(&q) == scope(&linked), "linked": format!("{} [{}]", linked, scope(&linked)), "back": format!("{} [{}]", q, scope(&q)), "json": j})
+        }
         Err(e) => json!({"equal": false, "linked": linked.to_string(), "back": format!("error: {e}")}),
     }
 }
